@@ -250,7 +250,12 @@ def classify_known(kind, payload, kf):
     res = payload.get("predicate_result", "")
     for kid, cls_neg, pred_name, text in CLASSIFIERS:
         if kid in op and pred_name in res and neg_in_class(cls_neg, payload["case"], payload.get("impl", "")):
-            return "id=%s %s; case `%s`" % (kid, text, payload["case"][:400])
+            # the predicate with the known class is evaluated LAST (every other predicate held on this trace), and
+            # every step on which it fails must be inside the class
+            t = payload["case"].split()
+            line = "vsock_pred %s_or_d9 %s | %s" % (pred_name, " ".join(t[1:]), payload.get("impl", ""))
+            if L.run_lines(L.MODEL, [line])[0] == "OK":
+                return "id=%s %s; case `%s`" % (kid, text, payload["case"][:400])
     return None
 
 
@@ -278,16 +283,10 @@ def _comp(pred_name, name, generator=None):
     return c
 
 
-COMPONENTS = [
-    _comp("c02_parked_ok", "vsock", gen),
-    _comp("c02_write_wakes", "vsock_write"),
-    _comp("c02_drop_writer_wakes", "vsock_dropw"),
-    _comp("c02_shutdown_wakes", "vsock_shutdown"),
-    _comp("c02_read_wakes", "vsock_read"),
-    _comp("c02_eof_wakes", "vsock_eof"),
-    _comp("c02_zero_window_waker", "vsock_zwnd"),
-    _comp("c02_timer_ok_g", "vsock_timer"),
-    _comp("c02_rto_armed", "vsock_rto"),
-    _comp("c02_no_silent_stall", "vsock_stall", gen),
-    _comp("c02_prompt", "vsock_prompt"),
-]
+# one component, every predicate evaluated on every trace (the first failing one is reported); the quick tier stays
+# within minutes, the thorough tier multiplies the cases
+# (the predicate with an open known class, c02_zero_window_waker / D9, comes last so that it masks nothing)
+ALL_PREDS = ["c02_parked_ok", "c02_write_wakes", "c02_drop_writer_wakes", "c02_shutdown_wakes", "c02_read_wakes",
+             "c02_eof_wakes", "c02_timer_ok_g", "c02_rto_armed", "c02_no_silent_stall", "c02_prompt", "c02_zero_window_waker"]
+COMPONENTS = [_comp("+".join(ALL_PREDS), "vsock", gen)]
+COMPONENTS[0]["corpus"] = ["vsock", "vsock_eof", "vsock_prompt", "vsock_rto", "vsock_shutdown"]
